@@ -181,24 +181,48 @@ def extract():
         raise ExtractError("RelVarNameAssigner: the regenerate-until-unused loop is no longer the modelled one")
     if "let outer_names = std::mem::take(&mut self.relation_instance_names); let res = self.fold_sql_transforms(pipeline)?; self.relation_instance_names = outer_names;" not in norm(pp):
         raise ExtractError("RelVarNameAssigner: the scope of relation_instance_names (one atomic pipeline) changed")
-    # (4) ensure_column_name: Model/NameGen.v ensure_column_name (UNCHECKED generation; made unique at (5) / (6))
-    ENSURE = ("let decl = &self.column_decls[&cid]; if let ColumnDecl::RelationColumn(_, _, col) = decl { match col { "
-              "RelationColumn::Single(Some(name)) => { let entry = self.column_names.entry(cid); return Some(entry.or_insert_with(|| name.clone())); } "
-              "RelationColumn::Wildcard => return None, _ => {} } } "
-              "let entry = self.column_names.entry(cid); Some(entry.or_insert_with(|| self.col_name.gen()))")
+    # The repair of F33b (fixes/F33b-*.diff) gives the column generator a reserved set like the table generator's.  Both shapes
+    # of the source are recognised; which one it is goes into GenIdentDialect.col_names_reserved (the model's `reserved`
+    # for columns is [] without the repair).
+    repaired = re.search(r"\breserved_column_names\b", cx) is not None
+    info["col_names_reserved"] = repaired
+    ENSURE_HEAD = ("let decl = &self.column_decls[&cid]; if let ColumnDecl::RelationColumn(_, _, col) = decl { match col { "
+                   "RelationColumn::Single(Some(name)) => { let entry = self.column_names.entry(cid); return Some(entry.or_insert_with(|| name.clone())); } "
+                   "RelationColumn::Wildcard => return None, _ => {} } } ")
+    # (4) ensure_column_name: Model/NameGen.v ensure_column_name (generation without a look at the names in use; made unique at (5) / (6))
+    ENSURE = ENSURE_HEAD + ("if !self.column_names.contains_key(&cid) { let name = self.gen_col_name(); self.column_names.insert(cid, name); } self.column_names.get(&cid)"
+                            if repaired else "let entry = self.column_names.entry(cid); Some(entry.or_insert_with(|| self.col_name.gen()))")
     if body_of(cx, r"fn\s+ensure_column_name\b[^{]*\{") != ENSURE:
         raise ExtractError("ensure_column_name is no longer the modelled function")
+    GEN = "ctx.gen_col_name()" if repaired else "ctx.col_name.gen()"
     # (5) anchor_split: per column of the split (75c6718)
     SPLIT = ("let old_name = ctx.ensure_column_name(*old_cid).cloned(); let mut new_name = old_name; "
-             "if let Some(new) = &mut new_name { if used_new_names.contains(new) { while used_new_names.contains(new) { *new = ctx.col_name.gen(); } "
-             "ctx.column_names.insert(*old_cid, new.clone()); } used_new_names.insert(new.clone()); ctx.column_names.insert(new_cid, new.clone()); }")
+             "if let Some(new) = &mut new_name { if used_new_names.contains(new) { while used_new_names.contains(new) { *new = %s; } "
+             "ctx.column_names.insert(*old_cid, new.clone()); } used_new_names.insert(new.clone()); ctx.column_names.insert(new_cid, new.clone()); }" % GEN)
     if SPLIT not in norm(an) or "let mut used_new_names = HashSet::new(); for old_cid in cols_at_split {" not in norm(an):
         raise ExtractError("anchor_split: the rename-on-duplicate step is no longer the modelled one")
     # (6) translate_select_item: the alias of an unnamed column (755de8e)
-    ALIAS = ("let ident = expected.cloned().unwrap_or_else(|| { let mut name = ctx.anchor.col_name.gen(); "
-             "while ctx.anchor.column_names.values().any(|n| *n == name) { name = ctx.anchor.col_name.gen(); } name });")
+    GENA = "ctx.anchor.gen_col_name()" if repaired else "ctx.anchor.col_name.gen()"
+    ALIAS = ("let ident = expected.cloned().unwrap_or_else(|| { let mut name = %s; "
+             "while ctx.anchor.column_names.values().any(|n| *n == name) { name = %s; } name });" % (GENA, GENA))
     if ALIAS not in norm(ge):
         raise ExtractError("translate_select_item: the generated alias is no longer regenerated until unused")
+    if repaired:
+        # (6b) the reserved column names: gen_col_name (same loop as (1)), and what QueryLoader puts into the set: the columns
+        # of every table reference and the declared columns of every relation of the RQ, lower-cased
+        if body_of(cx, r"pub\s+fn\s+gen_col_name\s*\(&mut self\)\s*->\s*String\s*\{") != \
+                "loop { let name = self.col_name.gen(); if !self.reserved_column_names.contains(&name.to_lowercase()) { return name; } }":
+            raise ExtractError("AnchorContext::gen_col_name is not the modelled loop")
+        if body_of(cx, r"fn\s+reserve_column_name\b[^{]*\{") != "if let RelationColumn::Single(Some(name)) = col { self.reserved_column_names.insert(name.to_lowercase()); }":
+            raise ExtractError("AnchorContext::reserve_column_name changed")
+        s0 = cx.find("impl RqFold for QueryLoader")
+        if s0 < 0:
+            raise ExtractError("impl RqFold for QueryLoader not found")
+        s, e = block_after(cx[s0:], cx[s0:], r"impl RqFold for QueryLoader\s*\{")
+        if norm(cx[s0:][s:e]) != ("fn fold_compute(&mut self, compute: Compute) -> Result<Compute> { self.context.register_compute(compute.clone()); Ok(compute) } "
+                                   "fn fold_relation(&mut self, relation: Relation) -> Result<Relation> { for col in &relation.columns { self.context.reserve_column_name(col); } fold_relation(self, relation) } "
+                                   "fn fold_table_ref(&mut self, table_ref: TableRef) -> Result<TableRef> { for (col, _) in &table_ref.columns { self.context.reserve_column_name(col); } Ok(table_ref) }"):
+            raise ExtractError("QueryLoader no longer reserves the column names of every relation and table reference")
     # (7) inventory: no other place draws from the two generators or touches the reserved set
     sites = {}
     import os
@@ -210,17 +234,24 @@ def extract():
                 continue
             rel = os.path.relpath(os.path.join(dp, f), REPO)
             c = code(rel)
-            for what in (r"\bcol_name\s*\.\s*gen\s*\(", r"\btable_name\s*\.\s*gen\s*\(", r"\bgen_table_name\s*\(", r"\breserved_table_names\b", r"NameGenerator::new\s*\("):
+            for what in (r"\bcol_name\s*\.\s*gen\s*\(", r"\btable_name\s*\.\s*gen\s*\(", r"\bgen_table_name\s*\(", r"\bgen_col_name\s*\(", r"\breserved_table_names\b",
+                         r"\breserved_column_names\b", r"\breserve_column_name\s*\(", r"NameGenerator::new\s*\("):
                 k = len(re.findall(what, c))
                 if k:
                     sites[(rel[len("prqlc/prqlc/src/"):], what)] = k
+    CG, TG = r"\bcol_name\s*\.\s*gen\s*\(", r"\btable_name\s*\.\s*gen\s*\("
     EXPECT = {
-        ("sql/pq/context.rs", r"\bcol_name\s*\.\s*gen\s*\("): 1, ("sql/pq/anchor.rs", r"\bcol_name\s*\.\s*gen\s*\("): 1, ("sql/gen_expr.rs", r"\bcol_name\s*\.\s*gen\s*\("): 2,
-        ("sql/pq/context.rs", r"\btable_name\s*\.\s*gen\s*\("): 1, ("sql/pq/postprocess.rs", r"\btable_name\s*\.\s*gen\s*\("): 2,
+        ("sql/pq/context.rs", TG): 1, ("sql/pq/postprocess.rs", TG): 2,
         ("sql/pq/context.rs", r"\bgen_table_name\s*\("): 1, ("sql/gen_query.rs", r"\bgen_table_name\s*\("): 1,
         ("sql/pq/context.rs", r"\breserved_table_names\b"): 2, ("sql/pq/postprocess.rs", r"\breserved_table_names\b"): 3,
         ("sql/pq/context.rs", r"NameGenerator::new\s*\("): 2,
     }
+    if repaired:
+        EXPECT.update({("sql/pq/context.rs", CG): 1,                                     # inside gen_col_name only
+                       ("sql/pq/context.rs", r"\bgen_col_name\s*\("): 2, ("sql/pq/anchor.rs", r"\bgen_col_name\s*\("): 1, ("sql/gen_expr.rs", r"\bgen_col_name\s*\("): 2,
+                       ("sql/pq/context.rs", r"\breserved_column_names\b"): 3, ("sql/pq/context.rs", r"\breserve_column_name\s*\("): 3})
+    else:
+        EXPECT.update({("sql/pq/context.rs", CG): 1, ("sql/pq/anchor.rs", CG): 1, ("sql/gen_expr.rs", CG): 2})
     if sites != EXPECT:
         diff = sorted(set(sites.items()) ^ set(EXPECT.items()))
         raise ExtractError("name-generation call sites changed: %s" % diff)
@@ -244,5 +275,7 @@ def generate():
         "(%s, %d, %s) (* %s *)" % (codes(n), q, "true" if a else "false", n) for n, q, a in info["dialects"]) + " ].\n\n"
     v += "Definition col_prefix : list N := %s. (* %s *)\n" % (codes(info["col_prefix"]), info["col_prefix"])
     v += "Definition table_prefix : list N := %s. (* %s *)\n" % (codes(info["table_prefix"]), info["table_prefix"])
+    v += "(* does the column-name generator skip reserved column names (repair of F33b in the source)? *)\n"
+    v += "Definition col_names_reserved : bool := %s.\n" % ("true" if info["col_names_reserved"] else "false")
     gen_write("GenIdentDialect", v)
     return info
